@@ -106,13 +106,24 @@ def obs_coq(o):
     return "mkObs %s %s [%s]" % ("true" if o["ok"] else "false", cl(o["exec"]), outs)
 
 
-def op_coq(op):
+def listed_rules(rs, listed):
+    """The rules the loader sees: those of the packages WORKSPACE.caco3 lists (one BUILD file per package,
+    no sub_builds in these workspaces)."""
+    return [r for r in rs or [] if r["dir"] in listed]
+
+
+def op_coq(op, listed):
     k = op["k"]
     if k == "src":
         st = op.get("stat")
         return "HOp (OSetSrc %s %s)" % (coq_str(op["name"]), "(Some %s)" % stat_coq(st) if st else "None")
     if k == "rules":
-        return "HOp (OSetRules %s)" % rules_coq(op["rules"])
+        return "HOp (OSetRules %s)" % rules_coq(listed_rules(op["rules"], listed))
+    if k == "pkgs":
+        # a WORKSPACE edit changes which BUILD files are read: to the model, the declared rules
+        return "HOp (OSetRules %s)" % rules_coq(listed_rules(op["_all_rules"], listed))
+    if k == "wipe":
+        return "HWipe"
     if k == "tamper":
         if op.get("garbage") is not None:
             c = "(Some (CGarbage %d))" % op["garbage"]
@@ -127,15 +138,30 @@ def op_coq(op):
     if k == "advance":
         return "HOp (OAdvance %d)" % op["dt"]
     if k == "newbuilder":
-        # The proved model keeps nothing from one Build call to the next (Caco/BuildSession.v:
-        # session_per_build_eq_run), so renewing the Builder is the identity on the world.
-        return "HOp (OAdvance 0)"
+        return "HNew"
     return "HBuild %s %s (%s)" % ("true" if op.get("always") else "false", cl(op["targets"]), obs_coq(op["obs"]))
+
+
+def effective(c):
+    """Yields (op, listed packages after the op, all rules on disk after the op)."""
+    listed = list(c["pkgs"])
+    allr = c["rules"]
+    for op in c["ops"]:
+        if op["k"] == "rules":
+            allr = op["rules"]
+        if op["k"] == "pkgs":
+            listed = list(op["pkgs"])
+        yield op, listed, allr
 
 
 def case_coq(c):
     src = "[" + "; ".join("(%s, %s)" % (coq_str(s["name"]), stat_coq(s["stat"])) for s in c["src"]) + "]"
-    return "mkHist %s %s [\n    %s]" % (rules_coq(c["rules"]), src, ";\n    ".join(op_coq(o) for o in c["ops"]))
+    steps = []
+    for op, listed, allr in effective(c):
+        if op["k"] == "pkgs":
+            op = dict(op, _all_rules=allr)
+        steps.append(op_coq(op, listed))
+    return "mkHist %s %s [\n    %s]" % (rules_coq(c["rules"]), src, ";\n    ".join(steps))
 
 
 # ------------------------------------------------ implementation-only oracle
@@ -213,11 +239,11 @@ def oracle(c):
     last_build = None
     fresh_edits = []     # sources given a never-seen mtime since the last build (any targets)
     newest = {s["name"]: s["stat"]["mtime"] for s in c["src"]}   # newest mtime a source ever had
-    for i, op in enumerate(c["ops"]):
+    for i, (op, listed, allr) in enumerate(effective(c)):
         if op["k"] == "newbuilder":
             continue     # a new Builder changes nothing about what has to happen
-        if op["k"] == "rules":
-            rules = op["rules"]
+        if op["k"] in ("rules", "pkgs"):
+            rules = listed_rules(allr, listed)
         if op["k"] == "src":
             if op.get("stat") is None:
                 srcs.discard(op["name"])
@@ -327,13 +353,15 @@ def fresh_stamp_violations(c):
     (mtime, size)."""
     n = 0
     last = {}
-    for op in c.get("ops", []):
+    for op, _listed, allr in effective(c):
         if op["k"] != "build" or not op.get("obs"):
             continue
+        kinds = {r["name"]: r["k"] for r in allr}
         cur = {f["name"]: (f["mtime"], f["size"]) for f in op["obs"]["outs"]}
         for r in op["obs"]["exec"]:
             o = r + ".fileset"
-            if o in cur and o in last and cur[o] == last[o] and op["obs"]["ok"]:
+            # (a rule that is a bundle now may have a stale <name>.fileset from its time as a file set)
+            if kinds.get(r) == "file_set" and o in cur and o in last and cur[o] == last[o] and op["obs"]["ok"]:
                 n += 1
         last = cur
     return n
@@ -379,6 +407,7 @@ def brief(c, upto=None):
                                      "outs": {f["name"]: norm_entries(f) for f in o["clean"]["outs"]}}
         ops.append(d)
     return {"stream": c["stream"], "i": c["i"], "builder": c.get("builder", "fresh"),
+            "work_dir_package": c.get("work", ""),
             "builder_note": "one = all Build calls of the history on one long-lived caco3.Builder per configuration "
                             "(renewed only at 'newbuilder'); fresh = a new Builder for every build",
             "pkgs": c["pkgs"], "rules": c["rules"],
@@ -408,7 +437,7 @@ def run(ck):
     nbuilds = 0
     stale = 0
     for c in cases:
-        key = json.dumps([c.get("builder"), c["rules"], [(s["name"], s["stat"]) for s in c["src"]],
+        key = json.dumps([c.get("builder"), c.get("work"), c["rules"], [(s["name"], s["stat"]) for s in c["src"]],
                           [{k: v for k, v in op.items() if k != "obs"} for op in c["ops"]]], sort_keys=True)
         builds = [op for op in c["ops"] if op["k"] == "build" and op.get("obs")]
         nbuilds += len(builds)
@@ -433,6 +462,15 @@ def run(ck):
                                                  "an unchanged rebuild executes nothing; only dependents of a "
                                                  "change execute; a failed rule is executed again"})
     ck.coverage["op_histogram"] = hist
+    grown = sum(c["fds"][1] - c["fds"][0] for c in cases if c.get("fds") and c["fds"][0] >= 0)
+    calls = sum(c["fds"][2] for c in cases if c.get("fds") and c["fds"][0] >= 0)
+    if calls:
+        ck.coverage["open_files_left_per_build_call"] = round(grown / calls, 2)
+        if grown > 0:
+            ck.coverage["open_files_note"] = (
+                "every Builder.Build leaves file descriptors open (the sqlite handle on out/CACHE is never closed): "
+                "%d descriptors over %d Build calls in the harness processes; not a statement of C10, recorded "
+                "because a long-lived Builder accumulates them" % (grown, calls))
     ck.coverage["builds_observed"] = nbuilds
     if stale:
         ck.notes.append("hypothesis 'an output write leaves a new stat' did not hold %d times on this file system" % stale)
@@ -503,7 +541,9 @@ def run(ck):
                  "modelled not verified: sqlite KV cache, os.Lstat/Chtimes, encoding/json, filepath.Glob/WalkDir"],
         rule="every history either with a new Builder per build or on one long-lived Builder per configuration "
              "(chosen per history; fixed corpus in both styles + one-Builder corpus: subset/edit/other subset, "
-             "fail/again, diamond arms, outputs deleted between different targets, BUILD edits, renewed Builder); "
+             "fail/again, diamond arms, outputs deleted between different targets, BUILD edits, renewed Builder, "
+             "out/ removed wholesale with its CACHE file, WORKSPACE.caco3 edits that drop and re-list a package "
+             "(followed by a new Builder: ReadWorkspace memoises)); "
              "fixed corpus (edit and edit-back to the same stat, chmod/touch/same-size edit, files entering and "
              "leaving a selection, deleted and overwritten outputs, a failing rule injected/repaired/injected "
              "again, rule reorder/kind change/removal, target subsets) + seeded random histories over 1-4 "
